@@ -307,6 +307,9 @@ def signature(case, verdict, failed):
             e = fs["out"]["err"] if fs is not None else "wrong-default"
             if (fs is None and case["dflt"] != 0) or e == "ERR:AssertionError":
                 return "flatten:levels>=3:attrs-from-empty-last-child:" + e
+        if fs is not None and fs["op"] == "merge" and fs["out"]["err"] == "ERR:TypeError" \
+                and not ({"r0", "r1"} & tags) and "actRangeClash" not in tags:
+            return "merge:fibers-of-fibers:3-way-union:TypeError"
         if fs is None and case["ops"][0]["op"] == "merge" and "r0" not in tags:
             return "merge:fibers:absent-defaults-into-merge_fn"
     st = fs["op"] + ":" + fs["out"]["err"] if fs is not None else "noerr"
